@@ -54,7 +54,11 @@ def run_case(case):
     neval = 0
     # ---------------- pdf = product of (conditional) densities, every input form
     rp = ref_pdf(fams, cond_on, thetas, pts)
-    forms = {"ndarray2d": pts, "list_of_lists": pts.tolist()}
+    wide = np.zeros((len(pts), 2 * n_dim + 1))
+    wide[:, 1::2] = pts
+    forms = {"ndarray2d": pts, "list_of_lists": pts.tolist(),
+             # memory layouts a caller may well produce: column-major copy, a strided view of a wider table, read-only, float32-free
+             "fortran_order": np.asfortranarray(pts), "strided_view": wide[:, 1::2], "reversed_view_twice": pts[::-1][::-1]}
     for name, arg in forms.items():
         got = np.asarray(model.pdf(arg), dtype=float)
         neval += 1
